@@ -44,7 +44,7 @@ theorem decodeMsg_eq (v : J) : decodeMsg {} v = msgOf v := by
         rw [ht] at this
         rw [this]
         cases k <;> rfl
-    · rfl
+    · cases j <;> rfl
   | arr xs =>
     cases xs with
     | nil => rfl
